@@ -32,9 +32,9 @@ go test -count=1 $TESTPKGS > $OUT/$P-$M.existing.txt 2>&1; EXIST=$?
 grep -v "^ok\|no test files" $OUT/$P-$M.existing.txt | head -20
 cp $SRC/demo_test.go $WT/$DEMOPKG/zz_seed_demo_test.go
 go test -count=1 -run 'Seed|seed|Demo' ./$DEMOPKG/ > $OUT/$P-$M.demo_with.txt 2>&1; DW=$?
-git stash -q -- $(git diff --name-only)
+git apply -R $SRC/patch.diff
 go test -count=1 -run 'Seed|seed|Demo' ./$DEMOPKG/ > $OUT/$P-$M.demo_without.txt 2>&1; DWO=$?
-git stash pop -q
+git apply $SRC/patch.diff
 rm -f $WT/$DEMOPKG/zz_seed_demo_test.go
 DET=""
 for C in $P $EXTRA; do
